@@ -296,7 +296,7 @@ def slots(R, P, fns):
         if f is None:
             continue
         num = Num(f, P, hooks)
-        sites = [s for s in access_sites(f) if s[1] == "index" and "slots" in f.show(s[2]["a"][0])]
+        sites = [s for s in access_sites(f, include_addr=True) if s[1] == "index" and "slots" in f.show(s[2]["a"][0])]
         try:
             states = num.states_at({s[0] for s in sites})
         except Limit as ex:
